@@ -41,6 +41,27 @@ def h_xor(L, K):
     return body
 
 
+def h_xor_long(L, K, probes):
+    """long inputs (beyond any internal block size): concrete filler with symbolic bytes at the probe positions, symbolic key; the
+    pointwise specification is proved at the probe positions and at the positions around 4 KiB / 64 KiB multiples"""
+    def body(ctx):
+        key = sym_bytes("key", K)
+        cells = [(i * 7 + 3) & 0xFF for i in range(L)]
+        sd = sym_bytes("data_at_probes", len(probes))
+        for p_, c in zip(probes, sd.cells):
+            cells[p_] = c
+        data = SymBytes(cells)
+        once = as_bytes(call(utils.xor, data, key))
+        ctx.prove(len(once.cells) == L, "xor is length preserving (%d bytes)" % L)
+        if len(once.cells) != L:
+            return
+        look = sorted(set(list(probes) + [i for b in (4096, 8192, 65536, 131072) for i in range(b - 2, b + 3) if 0 <= i < L] + [L - 1]))
+        for i in look:
+            exp = z3.simplify(bv(cells[i]) ^ bv(key.cells[i % K]))
+            ctx.prove(SymBytes([once.cells[i]]).eq(SymBytes([exp])), "xor pointwise on a long input: out[%d] == data[%d] ^ key[%d %% %d]" % (i, i, i, K))
+    return body
+
+
 # ---------------------------------------------------------------------------------------------------------- netbios
 def h_netbios(L, upper):
     def body(ctx):
@@ -305,6 +326,9 @@ def instances(tier):
         (0, 0), (0, 2), (3, 0), (1, 1), (4, 1), (4, 4), (5, 3), (3, 7), (8, 4), (8, 9), (16, 5), (16, 16), (15, 20), (7, 2)]
     for L, K in xor_shapes:
         out.append(Instance("xor L=%d K=%d" % (L, K), h_xor(L, K), dict(kind="xor", data_len=L, key_len=K)))
+    for L, K in (((65541, 3),) if q else ((65541, 3), (8197, 5), (131077, 7), (65541, 4))):
+        out.append(Instance("xor long L=%d K=%d" % (L, K), h_xor_long(L, K, (0, 4095, 4096, L - 4, L - 1) + ((65535, 65536) if L > 65536 else ())),
+                            dict(kind="xor_long", data_len=L, key_len=K, cost=500), max_loop=200000))
     for L in (range(0, 7) if q else range(0, 9)):
         out.append(Instance("netbios L=%d" % L, h_netbios(L, False), dict(kind="netbios", data_len=L)))
     for w, order, signed in itertools.product((1, 2, 4, 8), ("little", "big"), (False, True)):
